@@ -142,7 +142,7 @@ def split_label(label):
     for ch in '{[':                      # text / attribute set written on the element
         if ch in label:
             label = label[:label.index(ch)]
-    if label.startswith('.') or label.startswith('#'):
+    if label == '' or label.startswith('.') or label.startswith('#'):      # '' : only a [..] set was written
         return None, sc
     return label, sc
 
